@@ -123,6 +123,7 @@ def main(tier):
     log('[C03] compiled in %.1fs' % (time.time() - t0))
     n_ok = n_diag = 0
     sat_items = []
+    untranslated = []
     for (p, text), comp in zip(spellings, compiled):
         if 'panic' in comp:
             res.violation({'engine': 'J', 'harness': 'compile', 'class': 'panic'}, 'compiler panics on {{ %s }}: %s' % (text, comp['panic']),
@@ -140,7 +141,9 @@ def main(tier):
             H = rt.load(comp['gen_object'], comp['runtime'])
             root = rt.run(H)
         except JsUnsupported as e:
-            res.inconc('emitted code for {{ %s }} is outside the translator: %s' % (text, e))
+            # probe fallback (DESIGN 10.2): nothing is proved for this program; the real code is compared with the reference in node over
+            # the edge pool - a difference is a replayed violation, otherwise the program stays inconclusive
+            untranslated.append((p, text, comp, str(e)))
             continue
         hits = driver.find_attr(root, 'a')
         if len(hits) != 1:
@@ -163,6 +166,12 @@ def main(tier):
     # confirm sat verdicts in node (real generated code vs reference semantics, edge-value pool)
     confirmed = 0
     classes = {}
+    gap = {}
+    for p, text, comp, why in untranslated[:400]:
+        sat_items.append((p, text, comp))
+        gap[text] = why
+    for p, text, comp, why in untranslated[400:]:
+        res.inconc('emitted code for {{ %s }} is outside the translator: %s' % (text, why))
     for p, text, comp in sat_items:
         names = M.free_ids(p)
         envs = driver.env_pool(names, res.seed)
@@ -178,6 +187,8 @@ def main(tier):
             e, g, w = diff[0]
             cls = classify(p)
             classes.setdefault(cls, []).append((text, e, g, w))
+        elif text in gap:
+            res.inconc('emitted code for {{ %s }} is outside the translator: %s (no difference in node over %d environments)' % (text, gap[text], len(envs)))
         else:
             res.inconc('{{ %s }}: sat in the uninterpreted model but no difference found in node over %d environments' % (text, len(envs)))
     for cls, items in sorted(classes.items()):
